@@ -207,6 +207,25 @@ impl<'tcx> Cx<'tcx> {
                 }
             }
             Const::Val(cv, _) => {
+                // reference to a static / promoted allocation
+                if let mir::ConstValue::Scalar(rustc_middle::mir::interpret::Scalar::Ptr(p, _)) = cv {
+                    let (prov, off) = p.prov_and_relative_offset();
+                    if let Some(ga) = self.tcx.try_get_global_alloc(prov.alloc_id()) {
+                        match ga {
+                            rustc_middle::mir::interpret::GlobalAlloc::Static(d) => {
+                                fields.push(("static_ref", esc(&self.path(d))));
+                                fields.push(("static_off", format!("{}", off.bytes())));
+                            }
+                            rustc_middle::mir::interpret::GlobalAlloc::Memory(m) => {
+                                if let Some(b) = self.alloc_bytes(m.inner()) {
+                                    fields.push(("mem_bytes", b));
+                                    fields.push(("mem_off", format!("{}", off.bytes())));
+                                }
+                            }
+                            _ => {}
+                        }
+                    }
+                }
                 // string / byte-string literals
                 if let ty::Ref(_, inner, _) = ty.kind() {
                     if inner.is_str() {
